@@ -485,6 +485,12 @@ func Load(cfg LoadConfig) (*Prog, error) {
 	}
 	p2, err2 := loadOnce(cfg2)
 	if err2 != nil {
+		if os.Getenv("TABLELINT_DEBUG_NORMALISE") != "" {
+			fmt.Fprintln(os.Stderr, "normalise: second load failed:", err2)
+			for k, v := range ov {
+				os.WriteFile("/tmp/normalised_"+strings.ReplaceAll(strings.TrimPrefix(k, "/"), "/", "_"), v, 0o644)
+			}
+		}
 		// the expansion does not type-check: analyse the program as it is
 		p.NotInl = append(left, inlined...)
 		return p, nil
